@@ -207,6 +207,8 @@ class d3TimeScaleMilliseconds(object):
         pass
 
     def range(self, start, stop, step):
+        # the tick step is a whole number of ms, but may arrive as a float
+        step = int(step)
         return list(
             map(
                 milli2dt,
